@@ -2,6 +2,7 @@ package bus
 
 import (
 	"fmt"
+	"sync"
 
 	"github.com/lugu/qiloop/bus/net"
 	"github.com/lugu/qiloop/type/object"
@@ -13,6 +14,21 @@ type Cache struct {
 	Names    map[string]uint32
 	Services map[uint32]object.MetaObject
 	Endpoint net.EndPoint
+
+	client      Client
+	clientMutex sync.Mutex
+}
+
+// sharedClient returns the client used by every proxy of the cache:
+// message ids must be unique per endpoint, so all the proxies share
+// one client (and its message id counter).
+func (s *Cache) sharedClient() Client {
+	s.clientMutex.Lock()
+	defer s.clientMutex.Unlock()
+	if s.client == nil {
+		s.client = NewClient(NewChannel(s.Endpoint, DefaultCap()))
+	}
+	return s.client
 }
 
 // Proxy returns a proxy object to the desired service.
@@ -23,9 +39,7 @@ func (s *Cache) Proxy(name string, objectID uint32) (Proxy, error) {
 	}
 	meta := s.Services[serviceID]
 
-	channel := NewChannel(s.Endpoint, DefaultCap())
-	client := NewClient(channel)
-	return NewProxy(client, meta, serviceID, objectID), nil
+	return NewProxy(s.sharedClient(), meta, serviceID, objectID), nil
 }
 
 // Object creates an object from a reference.
@@ -51,8 +65,7 @@ func (s *Cache) AddService(name string, serviceID uint32,
 // the cache.
 func (s *Cache) Lookup(name string, serviceID uint32) error {
 	objectID := uint32(1)
-	channel := NewChannel(s.Endpoint, DefaultCap())
-	meta, err := GetMetaObject(NewClient(channel),
+	meta, err := GetMetaObject(s.sharedClient(),
 		serviceID, objectID)
 	if err != nil {
 		return fmt.Errorf("Can not reach metaObject: %s", err)
